@@ -62,6 +62,12 @@ def classify(case, detail):
         return "nested-variable-in-extracted-literal"
     # (the keys list-coercion-skipped-when-operation-not-first and default-value-nested-list-not-coerced
     #  were repaired in /repo -- work/c03_fix_*.patch; they are no longer mapped, a regression is a VIOLATION)
+    # a directive that follows a dropped @skip/@include (with at least two directives after the dropped
+    # one) is not visited by the first stage: the excluded node survives until the second normalisation,
+    # which has no unused-variable removal
+    if "three_directives" in fl and (clause == "valid_preserved/final" or clause.startswith("idempotent")) \
+            and "but never used" in detail:
+        return "directive-after-dropped-directive-not-visited"
     if clause == "canonical":
         m = re.search(r' A="(.*)" B="(.*)" varsA=(.*) varsB=(.*) variant=', detail)
         if m and m.group(1) != m.group(2):
@@ -73,14 +79,7 @@ def classify(case, detail):
             anon = lambda t: re.sub(r'\$\w+', '$', t)
             if "fragwrap_in_fragment" in detail.split(" A=", 1)[0] and _tokens(anon(a)) == _tokens(anon(b)):
                 return "inlining-depends-on-fragment-nesting"
-    if clause.startswith("exec_preserved") or clause.startswith("idempotent") or clause == "canonical":
-        if "null_in_object_list" in fl:
-            if not clause.startswith("exec_preserved"):
-                return "default-injection-null-list-item"
-            # the difference is confined to the echo of an argument value (not to the selection structure)
-            m = re.search(r'orig=(.*) norm=(.*)$', detail)
-            if m and m.group(1).startswith('(s "') and m.group(2).startswith('(s "'):
-                return "default-injection-null-list-item"
+    # (default-injection-null-list-item was repaired in /repo, 98cc10b: no longer mapped)
     return None
 
 
